@@ -39,16 +39,86 @@ def module_consts(an: Analysis, modname: str, V) -> Dict[str, object]:
     return env
 
 
+_table_problems: Dict[Tuple, List[str]] = {}
+
+
+def make_callable(an: Analysis, fn: FunctionInfo, env: dict):
+    """A package function with a single return expression as a callable for feval (its parameters bound to the call's arguments)."""
+    from sa.feval import callable_for_feval
+    rets = [n for n in ast.walk(fn.node) if isinstance(n, ast.Return) and n.value is not None]
+    if len(rets) != 1:
+        return None
+    a = fn.node.args
+
+    def call(*args, **kw):
+        e = dict(env)
+        names = [x.arg for x in a.posonlyargs + a.args]
+        for n_, v in zip(names, args):
+            e[n_] = v
+        if a.vararg:
+            e[a.vararg.arg] = tuple(args[len(names):])
+        e.update(kw)
+        return feval(rets[0].value, e)
+    return callable_for_feval(call)
+
+
+def opcode_table(an: Analysis, f: FunctionInfo, container: ast.AST, V) -> Optional[Set[int]]:
+    """The set of opcodes a container expression denotes under interpreter V (reference tables substituted for dis / opcode)."""
+    ref = c11.reference(V)
+    c = attr_chain(container) or ""
+    last = c.split(".")[-1]
+    if last.startswith("has") and last in ref:
+        return set(ref[last])
+    disenv = {"opmap": dict(ref["opmap"]), "opname": {v: k for k, v in ref["opmap"].items()}, "HAVE_ARGUMENT": ref["HAVE_ARGUMENT"], "EXTENDED_ARG": ref["EXTENDED_ARG"]}
+    for k in ref:
+        if k.startswith("has"):
+            disenv[k] = list(ref[k])
+    env: Dict[str, object] = {"dis": disenv, "opcode": disenv, "sys.version_info": V, "frozenset": frozenset, "set": set}
+    for k, v in disenv.items():
+        env["dis." + k] = v
+        env["opcode." + k] = v
+    m = f.module
+    for fname, g in m.functions.items():
+        cb = make_callable(an, g, env)
+        if cb is not None:
+            env[fname] = cb
+    if isinstance(container, ast.Name) and container.id in m.assigns and len(m.assigns[container.id]) == 1:
+        try:
+            val = feval(m.assigns[container.id][0], env)
+        except Exception:
+            return None
+        if isinstance(val, (set, frozenset, list, tuple)) and all(isinstance(x, int) for x in val):
+            return set(val)
+    return None
+
+
 def find_operand_decoder(an: Analysis, V) -> Tuple[FunctionInfo, List[Tuple[str, ast.If]]]:
-    """The function with the `opcode in dis.hasX` chain."""
+    """The function with the `opcode in dis.hasX` chain (or equivalent hand-written opcode tables, classified by content)."""
     best = None
+    ref = c11.reference(V)
     for f in an.closure("from_code", V):
         arms = []
+        problems = []
         for n in ast.walk(f.node):
             if isinstance(n, ast.If) and isinstance(n.test, ast.Compare) and len(n.test.ops) == 1 and isinstance(n.test.ops[0], ast.In):
                 c = attr_chain(n.test.comparators[0]) or ""
                 if c.split(".")[-1].startswith("has"):
                     arms.append((c.split(".")[-1], n))
+                elif isinstance(n.test.left, ast.Name) and f.params and n.test.left.id == f.params[0]:
+                    tab = opcode_table(an, f, n.test.comparators[0], V)
+                    if tab is None:
+                        continue
+                    # classify by content: the reference category it overlaps most
+                    cat = max((k for k in ref if k.startswith("has") and ref[k]), key=lambda k: len(tab & set(ref[k])), default=None)
+                    if cat is None or not (tab & set(ref[cat])):
+                        continue
+                    arms.append((cat, n))
+                    opname = {v: k for k, v in ref["opmap"].items()}
+                    missing = sorted(opname[o] for o in set(ref[cat]) - tab)
+                    extra = sorted(opname.get(o, str(o)) for o in tab - set(ref[cat]))
+                    if missing or extra:
+                        problems.append(f"`{norm_src(n.test)}` stands for {cat} but under {vname(V)} it lacks {missing} and adds {extra}")
+        _table_problems[(f.qual, V)] = problems
         if len(arms) >= 4 and (best is None or len(arms) > len(best[1])):
             best = (f, arms)
     if best is None:
@@ -91,6 +161,9 @@ def run(an: Analysis, rep):
                 raise AnalysisError(f"reference {cfg}: categories {a} and {b} overlap; arm order would matter")
         if any(op < ref["HAVE_ARGUMENT"] for c in cats for op in ref[c]):
             raise AnalysisError(f"reference {cfg}: a categorised opcode is below HAVE_ARGUMENT")
+        for pr in _table_problems.get((f.qual, V), []):
+            rep.add("R02.2", f"{f.qual}::hand-written opcode table", False, loc(f.module, f.node),
+                    pr + ": operands of the missing opcodes are shown as raw integers and the targets of missing jump opcodes start no block", config=cfg)
         seen_cats = set()
         for cat, ifn in arms:
             seen_cats.add(cat)
@@ -165,6 +238,9 @@ def jump_rules(an: Analysis, rep, with_cellfree=True):
     for V in VERSIONS:
         ref = c11.reference(V)
         f, arms = find_operand_decoder(an, V)
+        for pr in _table_problems.get((f.qual, V), []):
+            rep.add("R02.2", f"{f.qual}::hand-written opcode table", False, loc(f.module, f.node),
+                    pr + ": the targets of missing jump opcodes start no block and their operands are shown as raw integers", config=vname(V))
         env = module_consts(an, f.module.name, V)
         rep.run(r023, an, rep, V, f, arms, env, ref)
         if with_cellfree:
